@@ -14,6 +14,8 @@ BUILTINS["Ellipsis"] = Const(Ellipsis)
 @builtin("len")
 def bi_len(ex, args, kw):
     v = args[0]
+    if hasattr(v, "length_of"):
+        return v.length_of(ex)
     if isinstance(v, (list, tuple, dict, str, bytes, set, range)):
         return len(v)
     if isinstance(v, Vec):
